@@ -163,6 +163,19 @@ def check_be_encoder(rep, facts, key, nbytes, rule):
             if dst == ('param', 1) and src[0] == 'call' and src[1].endswith('::to_be_bytes') and src[2] == (('param', 2),):
                 alt = True
                 rep.ok(rule, fn, 'to_be_bytes', 'buf.copy_from_slice(&n.to_be_bytes())')
+            elif dst == ('param', 1) and src[0] == 'agg' and src[1] == 'array' and len(src[3]) == nbytes and \
+                    all(a.cfg.dominates(bi, r) for r in a.cfg.returns) and len(a.calls(lambda c: c['name'] == 'copy_from_slice')) == 1:
+                # buf.copy_from_slice(&[b0, b1, …]): the same bit-provenance test per element
+                alt = True
+                for k, e in enumerate(src[3]):
+                    bs = bits(e, inputs)
+                    good = be_byte_ok(bs, 'n', nbytes, k)
+                    rep.check(good, rule, fn, 'byte[%d]' % k, 'array element %d = %s ; bits=%s' % (k, pp(e)[:120], _bits_s(bs)),
+                              'element %d = bits [%d..%d) of n (big-endian byte %d of %d)' % (k, 8 * (nbytes - 1 - k), 8 * (nbytes - k), k, nbytes),
+                              where(a, a.term_point(bi)))
+                    okall = okall and good
+                if not okall:
+                    return False
         if not alt and _loop_encoder(rep, facts, a, nbytes, rule, inputs):
             return True
         if not alt:
